@@ -136,8 +136,9 @@ func init() {
 		Items: []planItem{
 			{Scenario: "xfer", Stratum: "", Quick: 900, Thorough: 30000},
 			{Scenario: "xfer", Stratum: "close", Quick: 200, Thorough: 5000},
+			{Scenario: "xfer", Stratum: "wrap", Quick: 300, Thorough: 8000},
 		},
-		QuickBudget: 50 * time.Second, ThoroughBudget: 20 * time.Minute,
+		QuickBudget: 60 * time.Second, ThoroughBudget: 22 * time.Minute,
 		Rule: "evaluations = seeded simulated runs; EVERY datagram handed to the simulated PacketConn in every run (first transmissions, retransmissions, ACK-only, probes, parity, after Close) is parsed by the independent decoder (README layout, crypto/cipher CFB / salsa20 / xor / AEAD, CRC32 over everything after the CRC field, FEC header, size field, 24-byte little-endian KCP headers filling the datagram exactly); FEC ids must advance by one (by parity count when parity is skipped) and agree with the type; parity must equal the Reed-Solomon code the harness computes with klauspost/reedsolomon over its own zero-padded copies; nonces and whole datagrams must never repeat; and the byte stream reassembled from the wire alone (by sn) must equal what was written. Non-trivial = fault fired and payload reached a reader; distinct = distinct event-log hashes",
 		Real: realSession, Stub: stubSession,
 		Assumptions: append([]string{"the fixed IV and the XOR salt are protocol constants copied into the decoder as data", "OOB packets are covered by the C19 scenario's runs of the same oracle"}, assumeCommon...),
